@@ -22,7 +22,7 @@ def warm():
 def run(tier: str) -> int:
     out = Outcome(PID, tier)
     wd = workdir(PID)
-    fams = ["A3", "A4o"]
+    fams = ["A3", "A4o", "DAG5o"]
     mcs = [sc.mc(wd, f)[0] for f in fams]
     gens = [sc.tables(wd, f)[0] for f in fams]
     recs = [r for g in gens for r in g["recs"]]
@@ -32,7 +32,7 @@ def run(tier: str) -> int:
         recs = gens[0]["recs"] + a4["recs"]
         extra = a4
         r5 = sc.tables(wd, "RND", rnd_seed=500 + seed(), rndn=5, rndk=40)[0]
-        recs += r5["recs"]
+        recs += r5["recs"] + gens[2]["recs"] + sc.tables(wd, "B5o")[0]["recs"]
     else:
         r5 = sc.tables(wd, "RND", rnd_seed=500 + seed(), rndn=5, rndk=6)[0]
         recs += r5["recs"]
@@ -57,11 +57,14 @@ def run(tier: str) -> int:
         "exhaustive": True,
         "design_mc": [{"family": m["family"], "distinct": m["distinct"], "invariants": ["EquivOnADMG", "SigmaLaws"]} for m in mcs],
         "insertion_orders": n_orders,
+        "history_replays": stats.get("grow_steps", 0),
         "distinct_nontrivial": nontrivial,
         "rule": "one record = ADMG with its full verdict table {(a,b,C) separated}; every ordered pair and every C is "
                 "replayed; non-trivial = graph with a bidirected edge and at least one separation; exhaustive over all "
-                "200 ADMGs on 3 nodes and all 4096 topologically numbered ADMGs on 4 nodes (every isomorphism class), "
-                "thorough adds all 34752 labelled 4-node ADMGs; 5-node graphs are seeded samples",
+                "200 ADMGs on 3 nodes, all 4096 topologically numbered ADMGs on 4 nodes (every isomorphism class) and all 1024 "
+                "topologically numbered 5-node DAGs; the second insertion order replays SepMachine's Grow action on ONE object "
+                "(predecessor graph queried completely, one edge added in place, every triple queried again); "
+                "thorough adds all 34752 labelled 4-node ADMGs and 6380 sparse 5-node ADMGs with one bidirected edge; other 5-node graphs are seeded samples",
     }
     return out.finish("model_checking", cov, [
         "expected verdicts come from MSepPath in Separation.tla, proved equal by TLC to d-separation in the canonical latent DAG",
